@@ -210,7 +210,9 @@ UnitScope ==
                \cup {r \in ToSet(Rows) : r.op = "method_decl" /\ r.name \notin {"%unit_init", "%class_sinit", "__init__"}} IN
   \* `from m import f as g` makes g another name of f (imports are top-level declarations, not executed rows)
   LET aliases == {r \in ToSet(TopDecls) : r.op = "from_import_stmt" /\ r.alias # "" /\ \E x \in named : x.name = r.name}
-      valueOf(n) == IF \E r \in named : r.name = n
+      \* a function of the program that is named like a configured source or sink is still that source / sink (the rule goes by name)
+      valueOf(n) == IF n \in {"source", "source2", "sink", "sink2"} THEN VBuiltin(n)
+                    ELSE IF \E r \in named : r.name = n
                     THEN LET r == CHOOSE x \in named : x.name = n IN IF r.op = "method_decl" THEN VFun(r.id, 0) ELSE VCls(r.id)
                     ELSE VBuiltin(n)
   IN
